@@ -9,7 +9,9 @@ PID = "C14"
 
 NEED_CLASSES = ["AnteTx/ok", "AnteTx/funds", "AnteTx:collector-cosigner", "AnteTx:collector-first", "AnteTx:others", "SendCoins/ok", "SendCoins/insufficient", "SendCoins/vesting", "SendCoins/restricted",
                 "SendCoinsUnrestricted/ok", "SendCoinsUnrestricted/insufficient", "DeductFee/ok", "DeductFee/funds",
-                "InputOutputCoins/ok", "InputOutputCoins/insufficient", "MintCoins/ok", "BurnCoins/ok",
+                "InputOutputCoins/ok", "InputOutputCoins/insufficient", "InputOutputCoins/mismatch",
+                "MultiSend:outputs-carry-a-denomination-no-input-carries", "MultiSend:inputs-carry-a-denomination-no-output-carries",
+                "MultiSend:same-denominations-unequal-amounts", "MultiSend:balanced", "MintCoins/ok", "BurnCoins/ok",
                 "BurnCoins/vesting", "AddCoins/ok", "SubtractCoins/ok", "SetCoins/ok", "RecomputeSupply/ok", "Time/ok"]
 NEED_SCALED = ["MintCoins/range", "AddCoins/panic", "SendCoins/panic"]
 NEED_THOROUGH = ["BurnCoins/range"]
@@ -102,6 +104,18 @@ def account(ctx, label, job, cls, sim):
             x = b[k]
             key = "%s/%s" % (x.get("act"), x.get("reply"))
             cls[key] = cls.get(key, 0) + 1
+            if x.get("act") == "InputOutputCoins":
+                tin = {d: sum(i["amt"][d] for i in x["ins"]) for d in ("u", "t")}
+                tout = {d: sum(o["amt"][d] for o in x["outs"]) for d in ("u", "t")}
+                if any(tout[d] > 0 and tin[d] == 0 for d in tin):
+                    io = "outputs-carry-a-denomination-no-input-carries"
+                elif any(tin[d] > 0 and tout[d] == 0 for d in tin):
+                    io = "inputs-carry-a-denomination-no-output-carries"
+                elif tin != tout:
+                    io = "same-denominations-unequal-amounts"
+                else:
+                    io = "balanced"
+                cls["MultiSend:" + io] = cls.get("MultiSend:" + io, 0) + 1
             if x.get("act") == "AnteTx" and x.get("reply") == "ok":
                 sg = x.get("signers", [])
                 who = "collector-cosigner" if "coll" in sg[1:] else "collector-first" if sg[0] == "coll" else "others"
